@@ -78,14 +78,26 @@ func (c *Config) load(configPath string, isGlobal bool) error {
 				c.local[ident] = make(kv)
 			}
 		} else {
-			splitText := strings.Split(strings.Replace(text, "\t", "", -1), "=")
+			if strings.TrimSpace(text) == "" {
+				continue
+			}
+			// split at the first '=' only, the value may contain '='
+			splitText := strings.SplitN(strings.Replace(text, "\t", "", -1), "=", 2)
+			if len(splitText) != 2 {
+				return ErrInvalidIdentifier
+			}
 			key := strings.TrimSpace(splitText[0])
 			value := strings.TrimSpace(splitText[1])
+			kvs := c.local
 			if isGlobal {
-				c.global[ident][key] = value
-			} else {
-				c.local[ident][key] = value
+				kvs = c.global
 			}
+			section, ok := kvs[ident]
+			if !ok {
+				// key-value line before any [section]
+				return ErrInvalidIdentifier
+			}
+			section[key] = value
 		}
 	}
 
